@@ -129,7 +129,15 @@ impl Prop for C07 {
             0 => rng.usize(2000, 9000),
             _ => rng.usize(4, 300),
         };
-        let frames = gen::gen_frames_to_target(rng, mode, &mix, target, 400, stats);
+        let mut frames = gen::gen_frames_to_target(rng, mode, &mix, target, 400, stats);
+        // one session in 12: a long one in which a frame boundary meets the end of the receive
+        // buffer and the link goes quiet right there (keep-alives are what an idle link carries)
+        let mut quiet_edge: Option<usize> = None;
+        if rng.chance(1, 12) {
+            let (fs, goal) = gen::boundary_frames(rng, mode, &mix, &frames, true, stats);
+            frames = fs;
+            quiet_edge = Some(goal);
+        }
         let (inbound, ends) = gen::concat(&frames);
         let mut lc = if rng.chance(1, 4) { LinkCfg::fault_free(rng) } else { LinkCfg::swarm(rng) };
         // write half is healthy and read errors are C05's business: keep Pending/stalls only
@@ -139,7 +147,12 @@ impl Prop for C07 {
         if rng.chance(1, 3) {
             lc.style = SegStyle::WholeStream;
         }
-        let reads = gen::gen_reads(rng, inbound.len(), &ends, &lc);
+        let mut reads = gen::gen_reads(rng, inbound.len(), &ends, &lc);
+        if let Some(edge) = quiet_edge {
+            if rng.chance(3, 4) {
+                reads = gen::quiet_edge_reads(rng, imp == Imp::Blocking, &frames, edge);
+            }
+        }
         let mut ops = Vec::new();
         // write half: healthy / slow (short writes, Pending) / failing at reply boundaries
         let mut writes = vec![];
@@ -191,7 +204,7 @@ impl Prop for C07 {
             }
         }
         ops.push(AppOp::Drain {
-            max: (frames.len() + n_err + 3) as u32,
+            max: (frames.len() + n_err + 3 + reads.iter().filter(|e| matches!(e, crate::scenario::ReadEv::Err(_)) || matches!(e, crate::scenario::ReadEv::Stall(ms) if *ms >= 90_000)).count()) as u32,
         });
         let buffered = imp == Imp::Tokio && rng.chance(1, 4);
         let flushes = if imp == Imp::Tokio && rng.chance(1, 3) {
